@@ -219,6 +219,145 @@ theorem valueless_input_propagates_nothing (sel : BackendSel) (k : Kind) (ctx : 
   intro o ho
   simp [mergeOne, dictGet, hfresh o ho]
 
+/-! ### downstream types under a fault (explicit hypothesis on the type-inference engine) -/
+
+/-- "`a` says no more than `b`": unknown type / rank / dimension permits anything. -/
+def Dim.permits : Dim → Dim → Prop
+  | .unk, _ => True
+  | .const n, .const m => n = m
+  | .const _, .unk => False
+
+def dimsPermit : List Dim → List Dim → Prop
+  | [], [] => True
+  | a :: as, b :: bs => Dim.permits a b ∧ dimsPermit as bs
+  | _, _ => False
+
+def Ty.permits : Ty → Ty → Prop
+  | .tensor e s, .tensor e' s' =>
+    e = e' ∧ (match s, s' with
+      | none, _ => True
+      | some ds, some ds' => dimsPermit ds ds'
+      | some _, none => False)
+  | .seq a, .seq b => Ty.permits a b
+  | .opt a, .opt b => Ty.permits a b
+  | _, _ => False
+
+def permits : Option Ty → Option Ty → Prop
+  | none, _ => True
+  | some a, some b => Ty.permits a b
+  | some _, none => False
+
+theorem dimsPermit_refl : ∀ ds : List Dim, dimsPermit ds ds
+  | [] => trivial
+  | d :: ds => ⟨by cases d <;> simp [Dim.permits], dimsPermit_refl ds⟩
+
+theorem permits_refl : ∀ t : Ty, Ty.permits t t
+  | .tensor e s => ⟨rfl, by cases s with | none => trivial | some ds => exact dimsPermit_refl ds⟩
+  | .seq t => permits_refl t
+  | .opt t => permits_refl t
+
+/-- What type inference sees of an input Var: the scope view and the value (Reshape & co. read it). -/
+structure InInfo where
+  v : InVar
+  payload : Option Payload
+
+/-- Faulty run vs. fault-free run, one input Var: identical, or the value is gone and the type says
+    no more than before. -/
+def InSim (a2 a1 : InInfo) : Prop :=
+  a2 = a1 ∨ (a2.v.hasValue = false ∧ a2.v.name = a1.v.name ∧ permits a2.v.type a1.v.type)
+
+inductive Pointwise {α β} (R : α → β → Prop) : List α → List β → Prop
+  | nil : Pointwise R [] []
+  | cons {a b as bs} : R a b → Pointwise R as bs → Pointwise R (a :: as) (b :: bs)
+
+/-- The type-inference engine as a parameter: output keys and types from what it sees of the inputs. -/
+abbrev TypeOracle := List InInfo → List (String × Option Ty)
+
+/-- **The explicit hypothesis** about the third-party engine (onnx shape inference with data
+    propagation): knowing less about the inputs never makes it claim more about the outputs. -/
+def MonotoneOracle (I : TypeOracle) : Prop :=
+  ∀ ins2 ins1, Pointwise InSim ins2 ins1 →
+    Pointwise (fun p2 p1 => p2.1 = p1.1 ∧ permits p2.2 p1.2) (I ins2) (I ins1)
+
+def mkCtxI (I : TypeOracle) (ins : List InInfo) (hasSub : Bool) : NodeCtx :=
+  { inputs := ins.map (·.v), outputs := (I ins).map fun p => ⟨p.1, p.2, none⟩, hasSubgraph := hasSub }
+
+theorem insim_cases {ins2 ins1 : List InInfo} (h : Pointwise InSim ins2 ins1) :
+    ins2 = ins1 ∨ ∃ a ∈ ins2, a.v.hasValue = false := by
+  induction h with
+  | nil => exact Or.inl rfl
+  | cons hab _ ih =>
+    rcases hab with rfl | ⟨hv, _, _⟩
+    · rcases ih with rfl | ⟨a, ha, hva⟩
+      · exact Or.inl rfl
+      · exact Or.inr ⟨a, List.mem_cons_of_mem _ ha, hva⟩
+    · exact Or.inr ⟨_, List.mem_cons_self .., hv⟩
+
+theorem mkCtxI_fresh (I : TypeOracle) (ins : List InInfo) (hs : Bool) :
+    ∀ o ∈ (mkCtxI I ins hs).outputs, o.value = none := by
+  intro o ho
+  simp only [mkCtxI, List.mem_map] at ho
+  obtain ⟨p, _, rfl⟩ := ho
+  rfl
+
+/-- **types_unaffected, downstream half.** Compare a fault-free construction of a node with the
+    construction of the same node in a run where a fault happened somewhere (at this node or
+    upstream), the inputs being related by `InSim`. Provided the type-inference engine is monotone
+    (`MonotoneOracle`, the explicit third-party hypothesis) and the evaluator is deterministic
+    (`b2 = b1` unless this is the faulty call, which attaches nothing):
+    * the output keys agree and every output type under the fault permits the fault-free one, and
+    * the outputs either carry no values at all or are exactly the fault-free outputs -
+    which is again `InSim` for the consumers of these outputs, so the statement propagates along any
+    program by induction on its construction order. -/
+theorem downstream_types_permissive (I : TypeOracle) (hI : MonotoneOracle I) (sel : BackendSel)
+    (k : Kind) (hasSub : Bool) (ins2 ins1 : List InInfo) (hsim : Pointwise InSim ins2 ins1)
+    (b1 b2 : Backend) (res1 res2 : List (OutVar × Bool))
+    (h1 : construct Variant.fixed sel k (mkCtxI I ins1 hasSub) b1 = .ok res1)
+    (h2 : construct Variant.fixed sel k (mkCtxI I ins2 hasSub) b2 = .ok res2)
+    (hb : b2 = b1 ∨ ∀ ow ∈ res2, ow.1.value = none) :
+    Pointwise (fun p2 p1 => p2.1 = p1.1 ∧ permits p2.2 p1.2)
+        (res2.map fun ow => (ow.1.key, ow.1.type)) (res1.map fun ow => (ow.1.key, ow.1.type)) ∧
+      ((∀ ow ∈ res2, ow.1.value = none) ∨ res2 = res1) := by
+  constructor
+  · rw [types_unaffected _ _ _ _ _ _ h1, types_unaffected _ _ _ _ _ _ h2]
+    have e : ∀ ins, (mkCtxI I ins hasSub).outputs.map (fun o => (o.key, o.type)) = I ins := by
+      intro ins
+      simp [mkCtxI, List.map_map, Function.comp_def]
+    rw [e, e]
+    exact hI ins2 ins1 hsim
+  · rcases hb with rfl | hb
+    · rcases insim_cases hsim with rfl | ⟨a, ha, hva⟩
+      · right
+        rw [h1] at h2
+        exact (Except.ok.inj h2).symm
+      · left
+        have hbad : ∃ i ∈ (mkCtxI I ins2 hasSub).inputs, i.type = none ∨ i.hasValue = false :=
+          ⟨a.v, by simp only [mkCtxI, List.mem_map]; exact ⟨a, ha, rfl⟩, Or.inr hva⟩
+        have := valueless_input_propagates_nothing sel k _ b2 hbad (mkCtxI_fresh I ins2 hasSub)
+        rw [this] at h2
+        have h2' := Except.ok.inj h2
+        subst h2'
+        intro ow how
+        simp only [List.mem_map] at how
+        obtain ⟨o, ho, rfl⟩ := how
+        exact mkCtxI_fresh I ins2 hasSub o ho
+    · exact Or.inl hb
+
+/-- The hypothesis is satisfiable, e.g. by an engine that passes the first input's type through
+    (Identity-like): less known about the input, less claimed about the output. -/
+example : MonotoneOracle (fun ins => [("output", (ins.head?.bind fun a => a.v.type))]) := by
+  intro ins2 ins1 h
+  cases h with
+  | nil => exact .cons ⟨rfl, trivial⟩ .nil
+  | cons hab _ =>
+    refine .cons ⟨rfl, ?_⟩ .nil
+    rcases hab with rfl | ⟨_, _, hp⟩
+    · simp only [List.head?_cons, Option.bind_some]
+      cases h : (_ : InInfo).v.type with
+      | none => trivial
+      | some t => exact permits_refl t
+    · simpa using hp
+
 /-! ### non-vacuity: the construction does attach good values and does drop bad ones -/
 
 def ctx1 (t : Ty) : NodeCtx :=
